@@ -5,9 +5,9 @@ from vp.runner import Group
 CHK_NOCONV = ["--bounds-check", "--pointer-check", "--signed-overflow-check", "--div-by-zero-check"]
 
 # ---------------------------------------------------------------- futex semaphore
-SEM_S = ["harness/sem/sem_all.c", "rg/vp_rg.c", "rg/vp_sem.c", "rg/vp_stubs.c", "repo:platform/posix/src/time_rep.c"]
+SEM_S = ["harness/sem/sem_all.c", "rg/vp_rg.c", "rg/vp_sem.c", "rg/vp_clock.c", "rg/vp_stubs.c", "repo:platform/posix/src/time_rep.c"]
 SF = ["vp_s.taken", "vp_s.posted", "vp_s.last_load_valid", "vp_s.last_load", "vp_s.futex_timedout", "vp_s.waits", "vp_s.wakes",
-      "vp_s.wake_after_post", "vp_s.clock_valid", "vp_s.clock", "vp_s.clock_reads_after_timeout"]
+      "vp_s.wake_after_post", "vp_s.reads_at_timeout", "vp_clk.valid", "vp_clk.last", "vp_clk.reads"]
 SEM_LOOPS = {
     "nsync_mu_semaphore_p": [{"names": ["s", "i", "f"],
                               "invariants": ["vp_s.taken == __CPROVER_loop_entry(vp_s.taken)", "vp_s.role == 0"],
@@ -152,3 +152,33 @@ def mu_lemmas(tags=None):
     S = ["harness/mu/lemmas.c"] + RG + ["repo:internal/common.c"]
     return [Group(name="mu.lemma_LJ", srcs=S, entry="h_lemma_LJ", no_dfcc=True, kind="lemma", defines=MU_DEF, tags=tags, min_obligations=5),
             Group(name="mu.lock_types_real_tables", srcs=S, entry="h_lock_types", no_dfcc=True, kind="lemma", defines=MU_DEF, tags=tags, min_obligations=5)]
+
+
+# ---------------------------------------------------------------- once
+ONCE_S = ["harness/once/once_all.c", "rg/vp_rg.c", "rg/vp_once.c", "rg/vp_amu.c", "rg/vp_clock.c", "rg/vp_stubs.c",
+          "repo:platform/posix/src/time_rep.c", "repo:internal/time_internal.c"]
+OF = ["vp_o.winner", "vp_o.runs", "vp_o.stored_done", "vp_o.saw_done_acq", "vp_o.first_load_valid", "vp_o.first_load"]
+AF = ["vp_amu.held", "vp_amu.lock_calls", "vp_amu.unlock_calls", "vp_amu.cv_waits", "vp_amu.cv_broadcasts"]
+CLKF = ["vp_clk.valid", "vp_clk.last", "vp_clk.reads"]
+L_ONCE = {"nsync_run_once_impl": [
+    {"names": ["once", "o", "s"],
+     "invariants": ["vp_o.winner == 0 && vp_o.runs == 0 && vp_o.stored_done == 0", "s == 0 || vp_amu.held[0] == 1", "o <= 2u"],
+     "assigns": OF + ["*once", "o"]},
+    {"names": ["once", "s", "attempts"],
+     "invariants": ["(vp_tag_C07_once != 0 || vp_o.winner == 0 || vp_o.stored_done == 1)", "vp_o.runs == (vp_o.winner != 0 ? 1u : 0u)",
+                    "vp_amu.held[0] == (s != 0 ? 1 : 0)",
+                    "s != 0 || (vp_amu.lock_calls == __CPROVER_loop_entry(vp_amu.lock_calls) && vp_amu.cv_waits == __CPROVER_loop_entry(vp_amu.cv_waits))"],
+     "assigns": OF + AF + CLKF + ["*once", "attempts"]}]}
+ONCE_ASSUMED = ["nsync_mu_lock/unlock and nsync_cv_broadcast/wait_with_deadline as used by once.c obey their ghost contracts (rg/vp_amu.c; proved for the mutex under C01/C05)",
+                "the once-function is an arbitrary client function (stub) that does not touch the nsync_once",
+                "rely/guarantee soundness (paper argument); atomic steps sequentially consistent"]
+
+
+def once_groups(tags=None):
+    def G(name, fn, entry, rep, loops, **kw):
+        return Group(name=name, srcs=ONCE_S, entry=entry, enforce=fn, replace=rep, loops=loops, timeout=600, unwind=70,
+                     defines=["VP_RG_ONCE", "VP_ABSTRACT_MU", "VP_REAL_SEM"], tags=tags, assumed=ONCE_ASSUMED, replay="rg", **kw)
+    return [G("once.impl", "nsync_run_once_impl", "h_once_impl", ["nsync_spin_delay_"], L_ONCE, min_obligations=100),
+            G("once.public_entry_points", None, "h_once_public", ["nsync_run_once_impl"], None, min_obligations=50,
+              functions=["nsync_run_once", "nsync_run_once_arg", "nsync_run_once_spin", "nsync_run_once_arg_spin"]),
+            G("once.lemma_single_claimant", None, "h_once_lemma", [], None, no_dfcc=True, kind="lemma", min_obligations=1)]
